@@ -10,7 +10,7 @@
    is what the correspondence stage compares bit for bit with CPython. *)
 From Coq Require Import List ZArith Bool QArith Qcanon.
 From Coq Require Import Reals.
-From RxVerif Require Import Math.Exact Math.ExactProofs Math.FloatModel Math.C12Corr Math.SumErrorProofs.
+From RxVerif Require Import Math.Exact Math.ExactProofs Math.FloatModel Math.C12Corr Math.SumErrorProofs Math.MeanErrorProofs Math.MinMaxFloatProofs.
 Import ListNotations.
 Open Scope Qc_scope.
 
@@ -143,6 +143,53 @@ Theorem C12_float_sum_error_bound : forall (h : hints) (l : list Coq.Floats.Prim
 Proof. exact float_sum_error. Qed.
 Print Assumptions C12_float_sum_error_bound.
 
+(* (e') the same for `mean`: one more rounding for the division by the count (exact as a float below 2^53); the
+        quotient may be subnormal, hence the absolute term eta64 = 2^-1075:
+            | fl_mean - (sum x_i) / n |  <=  ((1 + u)^(n+1) - 1) * (sum |x_i|) / n  +  eta64
+        at completion (reduce) and for EVERY streaming value (the mean after the i-th item, against the first i items). *)
+Theorem C12_float_mean_error_bound : forall (h : hints) (l : list Coq.Floats.PrimFloat.float),
+  l <> [] -> (Z.of_nat (length l) < 2 ^ 53)%Z ->
+  Forall (fun x => Coq.Floats.PrimFloat.is_finite x = true) l ->
+  Forall (fun x => Coq.Floats.PrimFloat.is_finite x = true) (scan_states Coq.Floats.PrimFloat.add Coq.Floats.PrimFloat.zero l) ->
+  Coq.Floats.PrimFloat.is_finite
+    (Coq.Floats.PrimFloat.div (fold_left Coq.Floats.PrimFloat.add l Coq.Floats.PrimFloat.zero) (f_of_Z (Z.of_nat (length l)))) = true ->
+  exists m, mean_run (FA h) true (map NF l) = [Some (NF m)]
+            /\ (Rabs (FR m - sumR (map FR l) / INR (length l))
+                <= ((1 + u53) ^ S (length l) - 1) * (sumR (map (fun x => Rabs (FR x)) l) / INR (length l)) + eta64)%R.
+Proof. exact float_mean_error. Qed.
+Print Assumptions C12_float_mean_error_bound.
+Theorem C12_float_mean_running_error_bound : forall (h : hints) (l : list Coq.Floats.PrimFloat.float),
+  (Z.of_nat (length l) < 2 ^ 53)%Z ->
+  Forall (fun x => Coq.Floats.PrimFloat.is_finite x = true) l ->
+  Forall (fun x => Coq.Floats.PrimFloat.is_finite x = true) (scan_states Coq.Floats.PrimFloat.add Coq.Floats.PrimFloat.zero l) ->
+  Forall (fun i => Coq.Floats.PrimFloat.is_finite
+                     (Coq.Floats.PrimFloat.div (fold_left Coq.Floats.PrimFloat.add (firstn i l) Coq.Floats.PrimFloat.zero)
+                                               (f_of_Z (Z.of_nat i))) = true) (seq 1 (length l)) ->
+  Forall2 (fun (v : option num) (i : nat) =>
+             exists m, v = Some (NF m)
+               /\ (Rabs (FR m - sumR (map FR (firstn i l)) / INR i)
+                   <= ((1 + u53) ^ S i - 1) * (sumR (map (fun x => Rabs (FR x)) (firstn i l)) / INR i) + eta64)%R)
+          (mean_run (FA h) false (map NF l)) (seq 1 (length l)).
+Proof. exact float_mean_running_error. Qed.
+Print Assumptions C12_float_mean_running_error_bound.
+(* float(k) is exact for the counts in range *)
+Theorem C12_float_count_exact : forall z : Z, (0 <= z < 2 ^ 53)%Z ->
+  Coq.Floats.PrimFloat.is_finite (f_of_Z z) = true /\ FR (f_of_Z z) = IZR z.
+Proof. exact f_of_Z_exact. Qed.
+Print Assumptions C12_float_count_exact.
+(* (e'') min and max involve no rounding: on finite binary64 items the emitted value is one of the items and
+         bounds every item (as real numbers) *)
+Theorem C12_float_max_exact : forall (h : hints) (l : list Coq.Floats.PrimFloat.float),
+  l <> [] -> Forall (fun x => Coq.Floats.PrimFloat.is_finite x = true) l ->
+  exists m, max_run (FA h) true (map NF l) = [Some (NF m)] /\ In m l /\ Forall (fun x => (FR x <= FR m)%R) l.
+Proof. exact float_max_exact. Qed.
+Print Assumptions C12_float_max_exact.
+Theorem C12_float_min_exact : forall (h : hints) (l : list Coq.Floats.PrimFloat.float),
+  l <> [] -> Forall (fun x => Coq.Floats.PrimFloat.is_finite x = true) l ->
+  exists m, min_run (FA h) true (map NF l) = [Some (NF m)] /\ In m l /\ Forall (fun x => (FR m <= FR x)%R) l.
+Proof. exact float_min_exact. Qed.
+Print Assumptions C12_float_min_exact.
+
 Theorem C12_float_unit_roundoff : u53 = (/ 2 ^ 53)%R.
 Proof. exact u53_value. Qed.
 Print Assumptions C12_float_unit_roundoff.
@@ -151,7 +198,7 @@ Print Assumptions C12_float_unit_roundoff.
    length n <= 10^4 without overflow, and every aggregate: the emitted value v_hat and the exact statistic v
    (as computed by QA on the same numbers) satisfy |v_hat - v| <= c * n * 2^-53 * (kappa + 1) * |v| + tiny, kappa the
    condition number of the data.  What is proved is the exact-arithmetic half, collected here, and the binary64
-   bound for `sum` above; for mean, Welford variance/stddev and the two-pass formal variance the binary64 half
+   bounds for `sum`, `mean` (reduce and streaming) and `min`/`max` (exact) above; for Welford variance/stddev and the two-pass formal variance the binary64 half
    is tied bit-exactly to the code and its error is measured against exact rationals by the oracle. *)
 Theorem C12_partial : forall (sq : Qc -> Qc) (xs : list Qc),
   sum_run (QA sq) true xs = [qsum xs]
